@@ -5,15 +5,27 @@ that a repair of the source makes the hypothesis true for every input.
 
   H_noNul          a string cell / literal contains no NUL character (the ENGINE's parser stops at NUL;
                    no flag in sqlframe decides this)
-  H_infLiteral     `lit(±inf)` is an untyped string literal (Gen.litInfIsString)
+  H_infLiteral     `lit(±inf)` is an untyped string literal (Gen.litInfIsString): `select(lit(inf))` is the str 'inf', a
+                   VALUES column that mixes an infinity with other floats cannot be typed by the engine
+  H_infOperand     an infinity NOT passed through `lit` (plain operand, nested cell) is written by `_lit` as a typed
+                   literal (true of the current source: `Gen.litChain` has an isInf cast)
   H_dictOrder      dict rows are laid out positionally (Gen.dictRowsByKey)
   H_trimmedNames   inferred / listed names are `.strip()`ped (Gen.*NamesStripped)
   H_namesAreFields a list-of-names schema over dict/Row rows is looked up by name in the first row
   H_listFloat      a float literal nested in a list passed to `lit` (no CAST) comes back as Decimal
   H_nanWidth       the NaN literal is CAST('NaN' AS FLOAT): 32 bit
   H_ddlSimple      the DDL string is split on ',' and ' ' (types with commas, `a: int`, double blanks)
+  H_floatDigits    a finite float is written with `repr`: without an exponent the ENGINE reads the text as DECIMAL and
+                   converts it to DOUBLE through its digits as an integer — exact only while that integer is
+                   exactly representable (<= 2^53); beyond, the value may come back a unit or two in the last
+                   place off (no flag in sqlframe decides this; the literal would have to carry an exponent)
+  H_firstRowTyped  column types are inferred from the FIRST row alone (first element of an array, every field of
+                   a Row): a None / empty container there leaves the position untyped — a Row field is then
+                   removed from every row by the CAST to the narrower struct type (PySpark merges all rows)
 -/
 import SqlframeModel.Impl.C09Values
+import SqlframeModel.Impl.C09Infer
+import SqlframeModel.Impl.C09Time
 namespace Sqlframe.C09
 open Gen
 
@@ -24,6 +36,10 @@ instance (s : List Char) : Decidable (H_noNul s) := by unfold H_noNul; exact inf
 def H_infLiteral (k : PyKind) : Prop := litInfIsString = false ∨ k ≠ .floatInf
 
 instance (k : PyKind) : Decidable (H_infLiteral k) := by unfold H_infLiteral; exact inferInstance
+
+def H_infOperand (k : PyKind) : Prop := typedRight .floatInf (columnLit .floatInf) = true ∨ k ≠ .floatInf
+
+instance (k : PyKind) : Decidable (H_infOperand k) := by unfold H_infOperand; exact inferInstance
 
 /-- a DECIMAL-typed float literal nested in a list comes back as `Decimal` (Gen.toValueDecimalToFloat) -/
 def H_listFloat (decimalTyped direct : Bool) : Prop :=
@@ -42,6 +58,17 @@ def H_dictOrder {α : Type} (cols : List String) (row : List (String × α)) : P
 
 instance {α : Type} (cols : List String) (row : List (String × α)) : Decidable (H_dictOrder cols row) := by
   unfold H_dictOrder; exact inferInstance
+
+/-- a float cell whose literal the engine types as DECIMAL has few enough digits to be converted exactly -/
+def H_floatDigits (decimalTyped : Bool) (unscaled : Nat) : Prop :=
+  decimalTyped = false ∨ unscaled ≤ 9007199254740992
+
+instance (d : Bool) (u : Nat) : Decidable (H_floatDigits d u) := by unfold H_floatDigits; exact inferInstance
+
+/-- the first row shows a type at every position the inference looks at -/
+def H_firstRowTyped (v : PyVal) : Prop := (specTy v).isSome = true
+
+instance (v : PyVal) : Decidable (H_firstRowTyped v) := by unfold H_firstRowTyped; exact inferInstance
 
 def allTrimmed (ns : List String) : Prop := ∀ n ∈ ns, trimmed n
 
